@@ -1093,11 +1093,12 @@ def tokenize(content: str, lenient: bool = False) -> tuple[list[Token], list[Any
 
             # GH#186: Try unicode identifier matching for emoji and symbols
             # GH#263: Pass lenient flag for curly-brace annotation auto-repair
+            repairs_before = len(repairs)
             unicode_id = _match_unicode_identifier(content, pos, lenient=lenient, repairs=repairs)
             if unicode_id:
                 # GH#263: Update line/column on any repair_candidate entries
                 # that were just appended by _match_unicode_identifier
-                for r in repairs:
+                for r in repairs[repairs_before:]:
                     if r.get("type") == "repair_candidate" and r.get("line") == 0 and r.get("column") == 0:
                         r["line"] = line
                         r["column"] = column
